@@ -8,7 +8,9 @@ For an arbitrary parser:
 * `C18_backup_kept` : the backup is only ever replaced by a file that parsed **and** passed the
   completeness test (after fix: dd311a1; before it any parseable prefix overwrote the backup);
 * `prefix_incomplete` : for a document `pre ++ "</root>" ++ whitespace` in which the root's closing
-  tag occurs nowhere earlier, every truncation strictly inside `pre ++ "</root>"` fails the test.
+  tag occurs nowhere earlier, every truncation strictly inside `pre ++ "</root>"` fails the test;
+* `C18_truncated` : hence for such a truncated file `handle_file` answers from the backup or fails, and
+  leaves the backup exactly as it was (the harness checks the uniqueness hypothesis on every document it saves).
 Crash points are quantified symbolically (`k` arbitrary), files over all character lists.
 -/
 namespace IRModel.Props.C18
@@ -116,5 +118,98 @@ example : (handleFile lenient { file := demoDoc.take 45, backup := some demoDoc 
   decide
 example : (handleFile lenient { file := demoDoc, backup := none }).2.backup = some demoDoc := by
   decide
+
+theorem rstrip_prefix (s : Str) : ∃ t, s = rstrip s ++ t := by
+  unfold rstrip
+  refine ⟨(s.reverse.takeWhile (fun c => c == ' ' || c == '\n' || c == '\t' || c == '\r')).reverse, ?_⟩
+  have h := List.takeWhile_append_dropWhile (p := fun c => c == ' ' || c == '\n' || c == '\t' || c == '\r') (l := s.reverse)
+  have h2 := congrArg List.reverse h
+  simp only [List.reverse_append, List.reverse_reverse] at h2
+  exact h2.symm
+
+/-- **a truncated document fails the completeness test**: if the root's closing tag occurs in `pre ++ </tag>` only at
+    the very end, then every cut strictly inside `pre ++ </tag>` (whatever whitespace follows the complete document)
+    leaves a text that `handle_file`'s completeness test rejects. -/
+theorem prefix_incomplete (tag pre ws : Str)
+    (huniq : ∀ i, i < pre.length → ((pre ++ closing tag).drop i).take (closing tag).length ≠ closing tag)
+    (k : Nat) (hk : k < (pre ++ closing tag).length) :
+    complete tag ((pre ++ closing tag ++ ws).take k) = false := by
+  cases hc : complete tag ((pre ++ closing tag ++ ws).take k) with
+  | false => rfl
+  | true =>
+    exfalso
+    unfold complete at hc
+    rw [List.isPrefixOf_iff_prefix] at hc
+    obtain ⟨r, hr⟩ := hc
+    have hr' := congrArg List.reverse hr
+    simp only [List.reverse_append, List.reverse_reverse] at hr'
+    -- rstrip text = r.reverse ++ closing
+    have htk : (pre ++ closing tag ++ ws).take k = (pre ++ closing tag).take k := by
+      rw [List.take_append_of_le_length (by omega)]
+    rw [htk] at hr'
+    obtain ⟨t, ht⟩ := rstrip_prefix ((pre ++ closing tag).take k)
+    rw [← hr'] at ht
+    -- so `pre ++ closing` starts with r.reverse ++ closing ++ …
+    have hfull : pre ++ closing tag = (r.reverse ++ closing tag ++ t) ++ (pre ++ closing tag).drop k := by
+      rw [← ht, List.take_append_drop]
+    have hlen : (r.reverse ++ closing tag ++ t).length = min k (pre ++ closing tag).length := by
+      rw [← ht, List.length_take]
+    have hi : r.reverse.length < pre.length := by
+      simp only [List.length_append] at hlen hk
+      omega
+    apply huniq r.reverse.length hi
+    rw [hfull]
+    simp only [List.append_assoc, List.drop_left', List.take_left']
+
+/-- **C18 for a truncated save**: the file holds a proper prefix (cut strictly inside `pre ++ </tag>`) of a document whose
+    root closing tag occurs only at its end.  Whatever the (possibly lenient) parser makes of that prefix — provided it
+    names the same root tag and does not mistake the text for one single self-closing element — `handle_file` answers
+    from the backup or fails, and leaves the backup exactly as it was. -/
+theorem C18_truncated {τ : Type} (parse : Str → Option (τ × Str × Bool)) (tag pre ws : Str) (backup : Option Str)
+    (huniq : ∀ i, i < pre.length → ((pre ++ closing tag).drop i).take (closing tag).length ≠ closing tag)
+    (k : Nat) (hk : k < (pre ++ closing tag).length)
+    (hparse : ∀ t tg b, parse ((pre ++ closing tag ++ ws).take k) = some (t, tg, b) →
+        tg = tag ∧ (b && ['/', '>'].reverse.isPrefixOf (rstrip ((pre ++ closing tag ++ ws).take k)).reverse) = false) :
+    let out := handleFile parse { file := (pre ++ closing tag ++ ws).take k, backup := backup }
+    out.2.backup = backup ∧
+    (out.1 = .error .failed ∨ ∃ b t tg f, backup = some b ∧ parse b = some (t, tg, f) ∧ out.1 = .ok t) := by
+  have hinc := prefix_incomplete tag pre ws huniq k hk
+  generalize (pre ++ closing tag ++ ws).take k = file at hinc hparse ⊢
+  -- the file itself is never accepted
+  have hprim : ∀ (t : τ) (tg : Str) (b : Bool), parse file = some (t, tg, b) →
+      (complete tg file || (b && ['/', '>'].reverse.isPrefixOf (rstrip file).reverse)) = false := by
+    intro t tg b hp
+    obtain ⟨htg, hb⟩ := hparse t tg b hp
+    subst htg
+    rw [hinc, hb]; rfl
+  cases hp : parse file with
+  | none =>
+    cases backup with
+    | none => simp only [handleFile, hp]; refine ⟨?_, Or.inl ?_⟩ <;> first | rfl | trivial
+    | some bk =>
+      cases hpb : parse bk with
+      | none => simp only [handleFile, hp, hpb]; refine ⟨?_, Or.inl ?_⟩ <;> first | rfl | trivial
+      | some r =>
+        obtain ⟨t, tg, f⟩ := r
+        simp only [handleFile, hp, hpb]
+        refine ⟨?_, Or.inr ⟨bk, t, tg, f, ?_, hpb, ?_⟩⟩ <;> first | rfl | trivial
+  | some r0 =>
+    obtain ⟨t0, tg0, b0⟩ := r0
+    have h0 := hprim t0 tg0 b0 hp
+    cases backup with
+    | none => simp only [handleFile, hp, h0, Bool.false_eq_true, if_false]; refine ⟨?_, Or.inl ?_⟩ <;> first | rfl | trivial
+    | some bk =>
+      cases hpb : parse bk with
+      | none => simp only [handleFile, hp, h0, hpb, Bool.false_eq_true, if_false]; refine ⟨?_, Or.inl ?_⟩ <;> first | rfl | trivial
+      | some r =>
+        obtain ⟨t, tg, f⟩ := r
+        simp only [handleFile, hp, h0, hpb, Bool.false_eq_true, if_false]
+        refine ⟨?_, Or.inr ⟨bk, t, tg, f, ?_, hpb, ?_⟩⟩ <;> first | rfl | trivial
+
+/-- non-vacuity of the hypotheses on the demo document -/
+example : ∀ i, i < ("<IRConfig a=\"1\">\n    <IRProtocol name=\"A\"/>\n".toList).length →
+    (("<IRConfig a=\"1\">\n    <IRProtocol name=\"A\"/>\n".toList ++ closing "IRConfig".toList).drop i).take (closing "IRConfig".toList).length
+      ≠ closing "IRConfig".toList := by decide
+
 
 end IRModel.Props.C18
